@@ -490,7 +490,7 @@ theorem with_precision_digits (B : Nat) (hB : 2 ≤ B) (m : Mode) (p : Nat) (hp 
     (`Dashu/Gen/FloatText.lean`, rewritten from /repo on every run) -/
 theorem scale_markers_regenerated (B : Nat) (hp : Bool) (c : Nat) (src : List Nat) :
     (isScaleMarker B hp c = true ↔ c ∈ Dashu.Gen.float_scaleMarkers B hp) ∧
-    hasHexPrefix src = Dashu.Gen.float_hexPrefixes.any (fun p => src.take p.length == p) :=
+    (∀ ps, Dashu.Gen.float_hexPrefixes = some ps → hasHexPrefix src = ps.any (fun p => src.take p.length == p)) :=
   ⟨isScaleMarker_eq_gen B hp c, hasHexPrefix_eq_gen src⟩
 
 /-- **Tie A (regenerated from float/src/fmt.rs)**: `LowerExp`/`UpperExp` print the regenerated marker
@@ -549,6 +549,12 @@ theorem display_text_is_spec (B : Nat) (hB : 2 ≤ B) (m : Mode) (plus : Bool) (
     (hz : r.signif = 0 → r.exp = 0) :
     fmtRound B m { plus := plus } prec r = displaySpec B m plus prec r :=
   display_text_eq_spec B hB m plus prec r hz
+
+/-- … in particular for every float the library can hold (`Repr::new` normalises; zero gets exponent 0) -/
+theorem display_text_is_spec_normalised (B : Nat) (hB : 2 ≤ B) (m : Mode) (plus : Bool) (prec : Option Nat)
+    (s e : Int) :
+    fmtRound B m { plus := plus } prec (FRepr.new B s e) = displaySpec B m plus prec (FRepr.new B s e) :=
+  display_text_eq_spec_new B hB m plus prec s e
 
 
 -- non-vacuity
